@@ -75,7 +75,7 @@ Check ((fun a b => eq_refl) : forall a b, lexlt a b = ((fst a < fst b)%nat \/ (f
 Check ((fun w e => eq_refl) : forall w e, evt_live w e =
   match e with
   | EvIn fd => exists x, alookup fd (w_conns w) = Some x /\ sc_out x = false /\ k_tosrv (client_of w (sc_client x)) <> []
-  | EvOut fd => exists x, alookup fd (w_conns w) = Some x /\ sc_out x = true
+  | EvOut fd _ => exists x, alookup fd (w_conns w) = Some x /\ sc_out x = true
   | EvListener nf => alookup nf (w_conns w) = None /\ w_backlog w <> []
   | EvHup _ | EvKill => False
   end).
@@ -170,6 +170,43 @@ Check (CSend : forall BUF w toks c cl bs, alookup c (w_clients w) = Some cl ->
     calm_step BUF (w, toks) (set_client w c (cl_set_tosrv cl (k_tosrv cl ++ bs)), toks)).
 Check (CRead : forall BUF w toks c cl, alookup c (w_clients w) = Some cl ->
     calm_step BUF (w, toks) (set_client w c (mkCl (k_open cl) (k_shut_wr cl) (k_shut_rd cl) (k_tosrv cl) [] (k_place cl)), toks)).
+(* partial writes are covered: an OUT event EvOut fd k lets the kernel accept as few as one byte of what is
+   offered (k = 0: everything); every theorem above quantifies over all k, so responses larger than the
+   socket buffer -- written piecemeal over many polls -- are within the theorems.  (What is still assumed:
+   whenever a connection's interest is OUT the kernel eventually reports it writable, i.e. the client reads.) *)
+Check ((fun BUF w g k => eq_refl) : forall BUF w g k, handle_event BUF w (EvOut g k) =
+  match alookup g (w_conns w) with
+  | None => inr EPanic
+  | Some x =>
+      let cl := client_of w (sc_client x) in
+      match cc_write x (k_can_receive cl) k with
+      | inr err => inr err
+      | inl (y, sent) =>
+          let y' := match sc_st y with
+                    | AwaitIn => mkSC (sc_conn y) (sc_st y) (sc_infl y) (sc_client y) false (sc_gid y)
+                    | _ => y
+                    end in
+          let cl' := mkCl (k_open cl) (k_shut_wr cl) (k_shut_rd cl) (k_tosrv cl) (k_rx cl ++ sent) (k_place cl) in
+          inl (set_client (set_conn w g y') (sc_client x) cl', [])
+      end
+  end).
+Example C08_one_byte_write :
+  match respond wC 1 (response_new Http11 NoContent) with
+  | inl w1 =>
+      match handle_event 1024 w1 (EvOut 1 1) with
+      | inl (w2, _) =>
+          length (k_rx (client_of w2 0)) = 1%nat /\
+          match alookup 1%nat (w_conns w2), alookup 1%nat (w_conns w1) with
+          | Some y, Some x => sc_st y = AwaitOut /\ sc_out y = true /\
+                              length (unsent (sc_conn y)) = (length (unsent (sc_conn x)) - 1)%nat /\
+                              (2 <= length (unsent (sc_conn x)))%nat
+          | _, _ => False
+          end
+      | _ => False
+      end
+  | _ => False
+  end.
+Proof. exact one_byte_write_example. Qed.
 (* non-vacuity: a calm world in which the application holds a token is reachable from a client
    waiting with a request (two polls), and the response can be supplied *)
 Example C08_token_world_reachable :
